@@ -545,28 +545,15 @@ func tOperand(ty, form, local string, left bool) (decl, expr string, ok bool) {
 var tAssignOps = map[string]bool{"=": true, "+=": true, "-=": true, "*=": true, "/=": true, "%=": true, "|=": true, "&=": true,
 	"^=": true, "<<=": true, ">>=": true, "rol=": true, "ror=": true, "&&=": true, "||=": true}
 
-func tOpBody(op, lty, rty, form string) (decls, body string, err error) {
-	ld, le, ok := tOperand(lty, "local", "l", true)
-	if !ok {
-		return "", "", fmt.Errorf("no left operand of type %s", lty)
-	}
-	rd, re, ok := tOperand(rty, form, "r", false)
-	if !ok {
-		return "", "", fmt.Errorf("no %s operand of type %s", form, rty)
-	}
-	if tAssignOps[op] {
-		return ld + rd, "set " + le + " " + op + " " + re + ";\n", nil
-	}
-	return ld + rd + "declare local var.verif_b BOOL;\n", "set var.verif_b = (" + le + " " + op + " " + re + ");\n", nil
-}
-
 func tCell(spec string) tResult { return tCellOpt(spec, true) }
 
 func tCellOpt(spec string, execute bool) (res tResult) {
 	f := strings.Split(spec, ",")
-	var decls, body string
+	var decls, body, src string
 	var err error
 	mask := 1
+	depth := 0
+	machine := false
 	switch {
 	case f[0] == "V" && len(f) == 4:
 		decls, body, err = tVarBody(f[1], f[2])
@@ -578,8 +565,25 @@ func tCellOpt(spec string, execute bool) (res tResult) {
 	case f[0] == "S" && len(f) == 3:
 		decls, body, err = tStmtBody(f[1])
 		mask, _ = strconv.Atoi(f[2])
+		machine = strings.HasPrefix(f[1], "return:")
+	case f[0] == "IV" && len(f) == 5:
+		decls, body, err = tVarBody(f[1], f[2])
+		depth, _ = strconv.Atoi(f[3])
+		mask, _ = strconv.Atoi(f[4])
+	case f[0] == "IF" && len(f) == 5:
+		idx, _ := strconv.Atoi(f[2])
+		depth, _ = strconv.Atoi(f[3])
+		mask, _ = strconv.Atoi(f[4])
+		decls, body, err = tFuncBody(f[1], idx, mask)
+	case f[0] == "IS" && len(f) == 4:
+		decls, body, err = tStmtBody(f[1])
+		depth, _ = strconv.Atoi(f[2])
+		mask, _ = strconv.Atoi(f[3])
+		machine = strings.HasPrefix(f[1], "return:")
 	case f[0] == "O" && len(f) == 5:
-		decls, body, err = tOpBody(f[1], f[2], f[3], f[4])
+		src, err = tOpProgram(f[1], f[2], f[3], f[4])
+	case f[0] == "C" && len(f) == 5:
+		src, err = tCoerceProgram(f[1], f[2], f[3], f[4])
 	default:
 		err = fmt.Errorf("bad cell spec")
 	}
@@ -589,13 +593,20 @@ func tCellOpt(spec string, execute bool) (res tResult) {
 	if mask <= 0 || mask >= 512 {
 		return tResult{lint: "-", interp: "-", lintMsg: "bad mask"}
 	}
-	src := tProgram(decls, body, mask)
+	if strings.HasPrefix(f[0], "I") {
+		if depth < 1 || depth > 3 {
+			return tResult{lint: "-", interp: "-", lintMsg: "bad depth"}
+		}
+		src = tChainProgram(decls, body, depth, mask)
+	} else if src == "" {
+		src = tProgram(decls, body, mask)
+	}
 	res.src = strings.ReplaceAll(src[len(tPreamble):], "\n", " ")
 	res.lint, res.lintMsg = tLint(src)
 	if !execute {
 		return res
 	}
-	res.interp, res.interpMsg, res.runs = tRun(src, tMaskScopes(mask), f[0] == "S" && strings.HasPrefix(f[1], "return:"))
+	res.interp, res.interpMsg, res.runs = tRun(src, tMaskScopes(mask), machine)
 	return res
 }
 
@@ -630,7 +641,7 @@ var (
 	tReScope = regexp.MustCompile(`(?i)could not call on|only available in|could only be enable on|is not available in|unexpected state|not allowed in|invalid state|state .* is not|could not (access|use) in|is not accessible in|cannot be assigned to .* in scope`)
 	tReUndef = regexp.MustCompile(`(?i)undefined variable|is not defined|not implemented|undefined expression|is not found|could not (read|set|unset|assign)|cannot (read|set|unset)|is read-?only|is not found|undefined`)
 	tReArity = regexp.MustCompile(`(?i)expects \d+ arguments? but|expects between|at least \d+ arguments|could not accept any arguments|argument count`)
-	tReType  = regexp.MustCompile(`(?i)expects \S+ type but|cannot convert to string|could not assign to|invalid assignment|invalid operator|must be an ident|type mismatch|could not specify|invalid addition|invalid subtraction|invalid multipl|invalid division|invalid remainder|invalid (left|right)|invalid bitwise|invalid logical|invalid (shift|rotate)|unexpected type|could not (add|subtract|multipl|divide|compare)|invalid type|comparison|type of|types?\b.*\bnot\b|left and right type must be|could not use (\S+ )?assignment for type|must be a literal|could not be a literal|literal could not|value type is not`)
+	tReType  = regexp.MustCompile(`(?i)expects \S+ type but|cannot convert to string|could not assign to|invalid assignment|invalid operator|must be an ident|type mismatch|could not specify|invalid addition|invalid subtraction|invalid multipl|invalid division|invalid remainder|invalid (left|right)|invalid bitwise|invalid logical|invalid (shift|rotate)|unexpected type|could not (add|subtract|multipl|divide|compare)|invalid type|comparison|type of|types?\b.*\bnot\b|left and right type must be|could not use (\S+ )?assignment for type|must be a literal|could not be a literal|literal could not|value type is not|conversion failed|invalid return type|invalid parameter`)
 )
 
 func tClassify(msg string) string {
